@@ -88,7 +88,7 @@ theorem edgeParametersLoop_sat (specified : List (String × FV)) (params : List 
     have hp : p.name ∉ rest.map (·.name) := (List.nodup_cons.mp hnd).1
     unfold edgeParametersLoop
     refine Sat.bind (P := fun _ => True) ?_ fun r _ => ?_
-      split
+    · split
       · split <;> trivial
       · split
         · exact rfl
@@ -221,5 +221,204 @@ theorem edgesLoop_sat {S : SchemaView} (hS : ValidSchemaView S) (irVertices : Li
     · trivial
     · refine Sat.of_noPanic (getRecurseImplicitCoercion_noPanic hS ?_)
       rw [hname]; exact hfield
+
+
+/-! ### `OutputHandler`, `ComponentPath`, `TagHandler` operations -/
+
+/-- How the handler state may have evolved over a sub-traversal; `exact` says that it reported
+no error, in which case the component path and the output-map stack are back where they were
+(after an error inside a `@fold` they keep the stale entries that `make_fold`'s `?` left). -/
+structure St.Step (st st' : St) (exact : Prop) : Prop where
+  inv : st'.Inv
+  vidStack : st'.vidStack = st.vidStack
+  nextVid : st.nextVid ≤ st'.nextVid
+  nextEid : st.nextEid ≤ st'.nextEid
+  path : ∃ ext, st'.path = st.path ++ ext ∧ (exact → ext = [])
+  outLen : st.outStack.length ≤ st'.outStack.length
+  outLenExact : exact → st'.outStack.length = st.outStack.length
+  prefixes : ∀ p ∈ st.prefixes, p ∈ st'.prefixes
+
+theorem St.Step.refl {st : St} (h : st.Inv) (p : Prop) : St.Step st st p :=
+  ⟨h, rfl, Nat.le_refl _, Nat.le_refl _, ⟨[], by simp, fun _ => rfl⟩, Nat.le_refl _, fun _ => rfl,
+   fun _ h => h⟩
+
+theorem St.Step.trans {a b c : St} {p q r : Prop} (h1 : St.Step a b p) (h2 : St.Step b c q)
+    (hr : r → p ∧ q) : St.Step a c r := by
+  obtain ⟨e1, hp1, hx1⟩ := h1.path
+  obtain ⟨e2, hp2, hx2⟩ := h2.path
+  refine ⟨h2.inv, h2.vidStack.trans h1.vidStack, Nat.le_trans h1.nextVid h2.nextVid,
+    Nat.le_trans h1.nextEid h2.nextEid, ⟨e1 ++ e2, by rw [hp2, hp1, List.append_assoc], ?_⟩,
+    Nat.le_trans h1.outLen h2.outLen, ?_, fun x hx => h2.prefixes x (h1.prefixes x hx)⟩
+  · intro h; rw [hx1 (hr h).1, hx2 (hr h).2]; rfl
+  · intro h; rw [h2.outLenExact (hr h).2, h1.outLenExact (hr h).1]
+
+theorem St.Step.weaken {a b : St} {p q : Prop} (h : St.Step a b p) (hq : q → p) : St.Step a b q :=
+  ⟨h.inv, h.vidStack, h.nextVid, h.nextEid,
+   (by obtain ⟨e, he, hx⟩ := h.path; exact ⟨e, he, fun x => hx (hq x)⟩),
+   h.outLen, fun x => h.outLenExact (hq x), h.prefixes⟩
+
+theorem St.Step.of_tagOnly {a b : St} (hinv : b.Inv) (h : St.TagOnly a b) (p : Prop) :
+    St.Step a b p :=
+  ⟨hinv, h.vidStack, Nat.le_of_eq h.nextVid.symm, Nat.le_of_eq h.nextEid.symm,
+   ⟨[], by simp [h.path], fun _ => rfl⟩, Nat.le_of_eq (by rw [h.outStack]),
+   fun _ => by rw [h.outStack], fun x hx => by rw [h.prefixes]; exact hx⟩
+
+theorem registerTag_inv {st : St} (h : st.Inv) (name : String) (f : FieldRefM) :
+    (st.registerTag name f).1.Inv ∧ St.Step st (st.registerTag name f).1 True ∧
+    (st.registerTag name f).1.globalOutputs = st.globalOutputs ∧
+    (st.registerTag name f).1.outStack = st.outStack := by
+  unfold St.registerTag
+  split
+  · exact ⟨h, St.Step.refl h _, rfl, rfl⟩
+  · have hinv : St.Inv { st with tags := st.tags ++ [⟨name, f, st.path⟩] } :=
+      ⟨h.path_ne, h.imported_keys, by
+        intro e he
+        rcases List.mem_append.mp he with he | he
+        · exact h.tags_path_ne e he
+        · simp at he; subst he; exact h.path_ne,
+       h.prefixes_lt, h.stack_prefixed⟩
+    exact ⟨hinv, ⟨hinv, rfl, Nat.le_refl _, Nat.le_refl _, ⟨[], by simp, fun _ => rfl⟩,
+      Nat.le_refl _, fun _ => rfl, fun _ hx => hx⟩, rfl, rfl⟩
+
+theorem outputPrefix_noPanic (prefixes : List (Vid × Option String)) (stack : List Vid)
+    (h : ∀ v ∈ stack, ∃ p ∈ prefixes, p.1 = v) : (St.outputPrefix prefixes stack).NoPanic := by
+  induction stack with
+  | nil => simp [St.outputPrefix]
+  | cons v rest ih =>
+    unfold St.outputPrefix
+    split
+    · rename_i hnone
+      exfalso
+      obtain ⟨p, hp, hpv⟩ := h v (List.mem_cons_self ..)
+      rw [List.find?_eq_none] at hnone
+      exact hnone p hp (by simp [hpv])
+    · exact noPanic_bind (ih fun w hw => h w (List.mem_cons_of_mem _ hw)) fun _ _ => by simp
+
+/-- The effect of registering one output. -/
+structure St.Registered (st st' : St) (ref : FieldRefM) : Prop where
+  inv : st'.Inv
+  step : St.Step st st' True
+  outLen : st'.outStack.length = st.outStack.length
+  outputs : ∃ n, st'.globalOutputs = st.globalOutputs ++ [(n, ref)]
+
+theorem registerOutput_sat {st : St} (h : st.Inv) (hout : 0 < st.outStack.length) (name : String)
+    (ref : FieldRefM) :
+    Sat (fun _ => False) (st.registerOutput name ref) (fun st' => St.Registered st st' ref) := by
+  unfold St.registerOutput
+  split
+  · rename_i hnone
+    rw [List.getLast?_eq_none_iff] at hnone
+    simp [hnone] at hout
+  · rename_i top _
+    have hlen : (st.outStack.dropLast ++ [top ++ [(name, ref)]]).length = st.outStack.length := by
+      simp; omega
+    have hinv : St.Inv { st with outStack := st.outStack.dropLast ++ [top ++ [(name, ref)]],
+                                 globalOutputs := st.globalOutputs ++ [(name, ref)] } :=
+      ⟨h.path_ne, h.imported_keys, h.tags_path_ne, h.prefixes_lt, h.stack_prefixed⟩
+    exact ⟨hinv, ⟨hinv, rfl, Nat.le_refl _, Nat.le_refl _, ⟨[], by simp, fun _ => rfl⟩,
+      Nat.le_of_eq hlen.symm, fun _ => hlen, fun _ hx => hx⟩, hlen, ⟨name, rfl⟩⟩
+
+theorem registerLocalOutput_sat {st : St} (h : st.Inv) (hout : 0 < st.outStack.length)
+    (localName suffix : String) (ref : FieldRefM) :
+    Sat (fun _ => False) (st.registerLocalOutput localName suffix ref)
+      (fun r => St.Registered st r.1 ref) := by
+  unfold St.registerLocalOutput
+  refine Sat.bind (Sat.of_noPanic (outputPrefix_noPanic _ _ h.stack_prefixed)) fun pfx _ => ?_
+  exact Sat.bind (registerOutput_sat h hout _ ref) fun st' hst' => hst'
+
+theorem St.Registered.trans_step {a b c : St} {r : FieldRefM} {p : Prop}
+    (h1 : St.Registered a b r) (h2 : St.Step b c p) : St.Step a c p :=
+  St.Step.trans h1.step h2 (fun x => ⟨trivial, x⟩)
+
+theorem beginNestedScope_sat {st : St} (h : st.Inv) (v : Vid) (pfx : Option String)
+    (hv : v < st.nextVid) (hfresh : ∀ p ∈ st.prefixes, p.1 < v) :
+    ∃ st', st.beginNestedScope v pfx = .ok st' ∧ st'.Inv ∧ st'.vidStack = st.vidStack ++ [v] ∧
+      st'.prefixes = st.prefixes ++ [(v, pfx)] ∧ st'.path = st.path ∧ st'.outStack = st.outStack ∧
+      st'.nextVid = st.nextVid ∧ st'.nextEid = st.nextEid ∧
+      st'.globalOutputs = st.globalOutputs ∧ st'.imported = st.imported ∧ st'.tags = st.tags := by
+  unfold St.beginNestedScope
+  have hnot : st.prefixes.any (·.1 == v) = false := by
+    rw [List.any_eq_false]
+    intro p hp
+    intro heq
+    have h1 := hfresh p hp
+    have h2 : p.1 = v := by simpa using heq
+    exact absurd h2 (Nat.ne_of_lt h1)
+  rw [hnot]
+  refine ⟨_, rfl, ⟨h.path_ne, h.imported_keys, h.tags_path_ne, ?_, ?_⟩, rfl, rfl, rfl, rfl, rfl,
+    rfl, rfl, rfl, rfl⟩
+  · intro p hp
+    rcases List.mem_append.mp hp with hp | hp
+    · exact h.prefixes_lt p hp
+    · simp at hp; subst hp; exact hv
+  · intro w hw
+    rcases List.mem_append.mp hw with hw | hw
+    · obtain ⟨p, hp, hpw⟩ := h.stack_prefixed w hw
+      exact ⟨p, List.mem_append_left _ hp, hpw⟩
+    · simp at hw; subst hw
+      exact ⟨(w, pfx), List.mem_append_right _ (by simp), rfl⟩
+
+theorem endNestedScope_ok {st : St} (h : st.Inv) {base : List Vid} {v : Vid}
+    (hs : st.vidStack = base ++ [v]) (hbase : ∀ w ∈ base, ∃ p ∈ st.prefixes, p.1 = w) :
+    ∃ st', st.endNestedScope v = .ok st' ∧ st'.Inv ∧ st'.vidStack = base ∧
+      st'.prefixes = st.prefixes ∧ st'.path = st.path ∧ st'.outStack = st.outStack ∧
+      st'.nextVid = st.nextVid ∧ st'.nextEid = st.nextEid ∧
+      st'.globalOutputs = st.globalOutputs := by
+  unfold St.endNestedScope
+  simp only [hs, List.getLast?_append, List.getLast?_singleton, Option.some_or]
+  simp only [bne_self_eq_false, Bool.false_eq_true, ↓reduceIte, List.dropLast_concat]
+  exact ⟨_, rfl, ⟨h.path_ne, h.imported_keys, h.tags_path_ne, h.prefixes_lt, hbase⟩, rfl, rfl, rfl,
+    rfl, rfl, rfl, rfl⟩
+
+theorem foldEnter_inv {st : St} (h : st.Inv) (v : Vid) :
+    (foldEnter st v).Inv ∧ (foldEnter st v).path = st.path ++ [v] ∧
+    (foldEnter st v).outStack = st.outStack ++ [[]] ∧ (foldEnter st v).vidStack = st.vidStack ∧
+    (foldEnter st v).nextVid = st.nextVid ∧ (foldEnter st v).nextEid = st.nextEid ∧
+    (foldEnter st v).prefixes = st.prefixes ∧ (foldEnter st v).globalOutputs = st.globalOutputs := by
+  refine ⟨⟨?_, ?_, h.tags_path_ne, h.prefixes_lt, h.stack_prefixed⟩, rfl, rfl, rfl, rfl, rfl, rfl,
+    rfl⟩
+  · simp [foldEnter, St.pathPush, St.tagsBeginSubcomponent, St.outputsBeginSubcomponent]
+  · show (st.imported ++ [(v, [])]).map (fun (x : Vid × List FieldRefM) => x.1) = (st.path ++ [v]).tail
+    rw [List.map_append, h.imported_keys]
+    cases hp : st.path with
+    | nil => exact absurd hp h.path_ne
+    | cons a rest => simp
+
+/-- `component_path.pop(v)` followed by `tags.end_subcomponent(v)` (mod.rs:1097–1098) when the
+path ends with `v`. -/
+theorem popFold_ok {st : St} (h : st.Inv) {base : List Vid} {v : Vid} (hp : st.path = base ++ [v])
+    (hb : base ≠ []) :
+    ∃ st1 st2 ext, st.pathPop v = .ok st1 ∧ st1.tagsEndSubcomponent v = .ok (st2, ext) ∧
+      st2.Inv ∧ st2.path = base ∧ st2.vidStack = st.vidStack ∧ st2.outStack = st.outStack ∧
+      st2.nextVid = st.nextVid ∧ st2.nextEid = st.nextEid ∧ st2.prefixes = st.prefixes ∧
+      st2.globalOutputs = st.globalOutputs := by
+  have hkeys := h.imported_keys
+  rw [hp] at hkeys
+  have htail : (base ++ [v]).tail = base.tail ++ [v] := by
+    cases base with
+    | nil => exact absurd rfl hb
+    | cons a rest => simp
+  rw [htail] at hkeys
+  -- the last imported entry is keyed by `v`
+  have hlast : ∃ init refs, st.imported = init ++ [(v, refs)] ∧ init.map (·.1) = base.tail := by
+    cases hi : st.imported.reverse with
+    | nil =>
+      have : st.imported = [] := by simpa using hi
+      rw [this] at hkeys; simp at hkeys
+    | cons x xs =>
+      have himp : st.imported = xs.reverse ++ [x] := by
+        have := congrArg List.reverse hi; simpa using this
+      rw [himp, List.map_append] at hkeys
+      have := List.append_inj' hkeys (by simp)
+      obtain ⟨h1, h2⟩ := this
+      simp at h2
+      exact ⟨xs.reverse, x.2, by rw [himp]; congr 2; exact Prod.ext h2 rfl, h1⟩
+  obtain ⟨init, refs, himp, hinit⟩ := hlast
+  refine ⟨{ st with path := base }, { st with path := base, imported := init }, refs, ?_, ?_,
+    ⟨hb, hinit, h.tags_path_ne, h.prefixes_lt, h.stack_prefixed⟩, rfl, rfl, rfl, rfl, rfl, rfl, rfl⟩
+  · unfold St.pathPop
+    simp [hp]
+  · unfold St.tagsEndSubcomponent
+    simp [himp]
 
 end TF.FE
